@@ -322,6 +322,7 @@ def restart_lane(st, rng, nworlds, replay_world=None):
         else:
             world = gen.World(rng)
             world.reuse_pending = False          # (a transaction shared by two stored blocks is C08's known finding)
+            world.min_ts = rng.choice([0, 2_000_000_000])      # (some histories are stamped ahead of this machine's clock)
             world.grow(rng.choice([10, 16, 24]), rng, tx_prob=0.8, bias="mixed")
         order = world.chain.order[1:]
         path = os.path.join(os.getcwd(), "c02-restart-%d.db" % j)
